@@ -90,6 +90,7 @@ func runC08(r *Run) {
 	}
 	var plan []planned
 	var stream []byte
+	var pieces [][]byte
 	mkJSON := func(n int, seed uint32) []byte {
 		if n < 2 {
 			n = 2
@@ -150,7 +151,9 @@ func runC08(r *Run) {
 		bfinal := p.comp && t.Pct(25)
 		fs := MessageFrames(MsgSpec{Typ: typ, Data: p.data, Compress: p.comp, BFinal: bfinal, Frags: SplitFrags(t, p.size)}, comp)
 		p.bfinal = bfinal
-		stream = append(stream, peer.Encode(fs...)...)
+		enc := peer.Encode(fs...)
+		stream = append(stream, enc...)
+		pieces = append(pieces, enc)
 		if !p.over && i < nMsgs-1 && api != 3 && t.Pct(30) {
 			p.newLim = []int64{0, 100, 5000, 70000, -1}[t.Draw(5)]
 			cur = p.newLim
@@ -185,6 +188,9 @@ func runC08(r *Run) {
 		}
 	}
 	endEOF := t.Draw(2) == 1
+	// asyncLimit: the limit is changed by another goroutine while the reader is
+	// already blocked waiting for the next message (which then arrives)
+	asyncLimit := special == 0 && t.Pct(30)
 	rc.Lib.In().RChunk = t.Weighted(5, 0, 1, 2, 3)
 	rc.Lib.In().OpBudget = 1500
 	r.S.Stick = []int{0, 60}[t.Draw(2)]
@@ -203,19 +209,38 @@ func runC08(r *Run) {
 	r.D("plan", pd)
 	r.Nontrivial = true
 
-	peer.Inject(stream)
-	if endEOF {
-		rc.Raw.CloseWrite()
-	}
-	stream = nil
-	var ms0, ms1 runtime.MemStats
-	delivered := 0
 	type res struct {
 		data     []byte
 		err      error
 		complete bool
 	}
 	var results []res
+	if !asyncLimit {
+		peer.Inject(stream)
+		if endEOF {
+			rc.Raw.CloseWrite()
+		}
+	} else {
+		sig += ",async-limit"
+		r.S.Go("feeder", func() {
+			for i := range plan {
+				if i > 0 {
+					r.S.ParkE("a.feeder", func() bool { return len(results) >= i && (rc.Lib.InReadLocked() || rc.Lib.ClosedLocked()) }, nil)
+					if plan[i-1].newLim != -3 {
+						c.SetReadLimit(plan[i-1].newLim)
+						r.S.Count("probe.limit-changed-while-reader-waits")
+					}
+				}
+				peer.Inject(pieces[i])
+			}
+			if endEOF {
+				rc.Raw.CloseWrite()
+			}
+		})
+	}
+	stream = nil
+	var ms0, ms1 runtime.MemStats
+	delivered := 0
 	r.S.Go("reader", func() {
 		defer c.CloseNow()
 		bg := context.Background()
@@ -278,7 +303,7 @@ func runC08(r *Run) {
 			if rs.err != nil {
 				break
 			}
-			if p.newLim != -3 {
+			if p.newLim != -3 && !asyncLimit {
 				c.SetReadLimit(p.newLim)
 			}
 			_ = i
